@@ -45,7 +45,7 @@ _ALL = {
              'counted (L5, L8); bulk removal/iteration paging is sound and bulk removals report what they removed '
              '(X3, E4).',
              'Equivalence with a reference dictionary over all call histories needs execution and is not decided.'),
-    'C04': P(['X1', 'X2', 'X3', ('E2', r'expired|lazy|expire'), 'E3', ('L9', r'Cache\.(incr|add|touch)/')],
+    'C04': P(['X1', 'X2', 'X3', 'X4', ('E2', r'expired|lazy|expire'), 'E3', ('L9', r'Cache\.(incr|add|touch)/')],
              'finite order abstraction {NULL,<,=,>} over every expiry comparison (SQL 3-valued + Python), sibling agreement',
              'Decides that every comparison of an expiry time with the clock - in SQL or Python - implements one '
              'liveness predicate (live iff NULL or > now) and every removal predicate selects only non-live items and '
